@@ -59,11 +59,65 @@ class Ctx:
         cfg = self.cfg(f)
         key = (f, tag)
         if key not in self._facts or entry is not None and not tag:
-            res = analyse(cfg, entry, self.eff.call_kills(f))
+            res = analyse(cfg, entry, self.eff.call_kills(f), self.bool_summary)
             if tag or entry is None:
                 self._facts[key] = res
             return cfg, res
         return cfg, self._facts[key]
+
+    def bool_summary(self, call: ast.Call, value: bool):
+        """Difference constraints over the caller's terms implied by `call` (a boolean helper of the repository) returning
+        the constant `value`: the join of the helper's facts at its `return <value>` statements, with the helper's parameters
+        replaced by the actual arguments."""
+        import re
+        cs = self.cg.site_of.get(call)
+        if cs is None or len(cs.callees) != 1 or cs.kind not in ("direct", "method"):
+            return []
+        h = cs.callees[0]
+        cache = self.__dict__.setdefault("_bool_summ", {})
+        if h not in cache:
+            cfg = self.cfg(h)
+            res = analyse(cfg, None, self.eff.call_kills(h))
+            per: dict[bool, Facts | None] = {}
+            nret: dict[bool, int] = {True: 0, False: 0}
+            other = False
+            for n in cfg.nodes:
+                if n.kind == "stmt" and isinstance(n.ast, ast.Return):
+                    v = n.ast.value
+                    if isinstance(v, ast.Constant) and isinstance(v.value, bool) and res.get(n.id) is not None:
+                        z = res[n.id]
+                        per[v.value] = z.copy() if v.value not in per or per[v.value] is None else per[v.value].join(z)
+                        nret[v.value] += 1
+                    else:
+                        other = True
+            cache[h] = None if other else per
+        per = cache[h]
+        if not per or per.get(value) is None:
+            return []
+        z = per[value]
+        z.close()
+        params = [a.arg for a in h.node.args.posonlyargs + h.node.args.args]
+        sub: dict[str, str] = {}
+        for pn in params:
+            a = self.eff.arg_for_param(cs, h, pn)
+            if a is not None and isinstance(a, (ast.Name, ast.Attribute)):
+                sub[pn] = ast.unparse(a)
+        out = []
+        ident = re.compile(r"[A-Za-z_][A-Za-z_0-9]*")
+
+        def tr(t: str) -> str | None:
+            if t == "0":
+                return t
+            roots = {m.group(0) for m in re.finditer(r"(?<![\w.])[A-Za-z_]\w*", t)}
+            roots = {r_ for r_ in roots if r_ not in ("len", "ord", "int", "abs")}
+            if not roots <= set(sub):
+                return None
+            return re.sub(r"(?<![\w.])([A-Za-z_]\w*)", lambda m: sub.get(m.group(1), m.group(1)), t)
+        for (x, y), k in z.d.items():
+            tx, ty = tr(x), tr(y)
+            if tx is not None and ty is not None and tx != ty:
+                out.append((tx, ty, k))
+        return out
 
     def where(self, f: Func, node: ast.AST) -> str:
         return loc(f.module, node)
